@@ -79,17 +79,6 @@ def showAsg (vars : List Nat) (mask : Nat) : String :=
 
 def varsOf (bs : List BDD) : List Nat := dedup (bs.flatMap support)
 
-/-- do two diagrams denote the same function (decided on the union of their supports)? -/
-def sameFun (a b : BDD) : Bool :=
-  let vs := varsOf [a, b]
-  (findAsg vs (fun σ => eval a σ == eval b σ)).isNone
-
-/-- check `∀ σ over vars, eval r σ = spec σ`, reporting the first failing assignment -/
-def checkFun (vars : List Nat) (r : BDD) (spec : Asg → Bool) (what : String) : Option String :=
-  match findAsg vars (fun σ => eval r σ == spec σ) with
-  | none => none
-  | some m => some s!"{what}: under {showAsg vars m} the returned diagram is {eval r (asgOf vars m)} but the specification says {spec (asgOf vars m)}"
-
 /-! ### many variables: a failing assignment is looked for along a path of a diagram built with the model's own
 operations (`and`, `not`), and then CHECKED by evaluating the diagrams in question at that one assignment — so a
 report is a genuine counterexample whatever the helper did; below `smallVars` variables every assignment is tried. -/
@@ -128,6 +117,27 @@ def findSat (vars : List Nat) (a : BDD) : Option Nat :=
 def findDiff (vars : List Nat) (a b : BDD) : Option Nat :=
   orElseN (findNotImpl vars a b) (findNotImpl vars b a)
 where orElseN (x y : Option Nat) : Option Nat := match x with | some v => some v | none => y
+
+/-- do two diagrams denote the same function (decided on the union of their supports; with many variables: no
+difference found along the paths of `and(a, not b)` and `and(b, not a)`)? -/
+def sameFun (a b : BDD) : Bool :=
+  let vs := varsOf [a, b]
+  (findDiff vs a b).isNone
+
+/-- check `∀ σ over vars, eval r σ = spec σ`, reporting the first failing assignment.  With many variables the
+candidate is an assignment on which `r` differs from the model's diagram `m` (if any), and it is reported only if the
+specification itself disagrees with `r` there. -/
+def checkFun (vars : List Nat) (r : BDD) (spec : Asg → Bool) (what : String) (m : Option BDD := none) : Option String :=
+  let bad : Option Nat :=
+    if vars.length ≤ smallVars then findAsg vars (fun σ => eval r σ == spec σ) else
+    match m with
+    | none => none
+    | some md => match findDiff vars r md with
+      | some a => if eval r (asgOf vars a) != spec (asgOf vars a) then some a else none
+      | none => none
+  match bad with
+  | none => none
+  | some a => some s!"{what}: under {showAsg vars a} the returned diagram is {eval r (asgOf vars a)} but the specification says {spec (asgOf vars a)}"
 
 def orElse (a b : Option String) : Option String :=
   match a with
